@@ -103,9 +103,9 @@ func (p *Program) ApplyComponent(name string, prog *Program, progFilePath string
 		}
 
 		for _, slot := range comp.Slots {
-			idx := findSlotStmtIndex(prog.Statements, slot.Name.Value)
+			slotStmt := findSlotStmt(prog.Statements, slot.Name.Value)
 
-			if idx == -1 {
+			if slotStmt == nil {
 				if slot.Name.Value == "" {
 					return fail.New(prog.Line(), progFilePath, "parser",
 						fail.ErrDefaultSlotNotDefined, name)
@@ -115,7 +115,7 @@ func (p *Program) ApplyComponent(name string, prog *Program, progFilePath string
 					fail.ErrSlotNotDefined, slot.Name.Value, name)
 			}
 
-			prog.Statements[idx].(*SlotStmt).Body = slot.Body
+			slotStmt.Body = slot.Body
 		}
 
 		comp.Block = prog
